@@ -545,14 +545,28 @@ theorem get_conn_first (H : Heap) (k : Nat) (cl : Caller) (cs : List Str) (comp 
       rw [hcal]; simp [hlt]
     simp [getConn, this, hc, hp, lookup_append_new _ _ _ hn]
 
-/-- **Which component a wrapper uses.** `k.m(…)` runs the body of the first class in Python's MRO
-whose body defines `m` (`bodyClass`), and `get_conn()` inside it takes the components from the
-table `_MCALLERS_METAS` of `type(k)`: the request is `doCall` with those components. -/
-theorem call_component (H : Heap) (k : Nat) (m : Str) (args : Args) (cl : Caller) (cd : ClassDef) (b : Nat)
+/-- **Which component a wrapper uses.** `k.m(…)` ends in the innermost wrapper that `resolveWrapper`
+finds (name `m'`, body in class `b`), and `get_conn()` inside it takes the components from the table
+`_MCALLERS_METAS` of `type(k)` for `m'`: the request is `doCall` with those components. -/
+theorem call_component (H : Heap) (k : Nat) (m m' : Str) (args : Args) (cl : Caller) (cd : ClassDef) (b : Nat)
     (comps : Comps) (hk : H.callers[k]? = some cl) (hc : H.classes[cl.cls]? = some cd)
-    (hb : bodyClass H.classes m cd.mro = some b) (hm : lookup cd.metas m = some comps) :
+    (hb : resolveWrapper H.classes cd.mro 16 m = .ok (m', b)) (hm : lookup cd.metas m' = some comps) :
     step H (.call k m args) = doCall H k comps { args with path := args.path ++ bodySuffix b } := by
   simp [step, hk, hc, hb, hm]
+
+/-- **The executing wrapper is the innermost one.** A wrapper whose body makes the request itself is
+the one whose components count (and whose class marks the path); a wrapper whose body only calls
+`self.<inner>(…)` counts for nothing: the call resolves exactly as a call of `inner` — whatever the
+components of the outer wrapper are, wherever in the class (or in which class of the hierarchy)
+the two are defined. -/
+theorem nested_call_innermost (cs : List ClassDef) (mro : List Nat) (fuel : Nat) (m : Str) (b : Nat) (bd : ClassDef)
+    (hb : bodyClass cs m mro = some b) (hbd : cs[b]? = some bd) :
+    (lookup bd.delegates m = none → resolveWrapper cs mro (fuel + 1) m = .ok (m, b)) ∧
+    (∀ inner, lookup bd.delegates m = some inner →
+        resolveWrapper cs mro (fuel + 1) m = resolveWrapper cs mro fuel inner) := by
+  constructor
+  · intro h; simp [resolveWrapper, hb, hbd, h]
+  · intro inner h; simp [resolveWrapper, hb, hbd, h]
 
 /-- **The table of a class**, as the metaclass computes it when the class is created: a wrapper of
 the class body wins; otherwise the entry comes from the first direct base (in the order of the
@@ -562,8 +576,8 @@ bases it differs from the MRO exactly when a later base overrides a wrapper that
 inherits (see the example below); component selection for that shape is outside the property and is
 tied to the code by the correspondence runs only. -/
 theorem metas_first_base (H : Heap) (bases mro : List Nat) (pmap : Option UDict) (own : List (Str × Comps))
-    (bs : List ClassDef) (hb : bases.mapM (fun b => H.classes[b]?) = some bs) (m : Str) :
-    ∃ cd, (step H (.newClass bases mro pmap own)).1.classes = H.classes ++ [cd] ∧
+    (dlg : List (Str × Str)) (bs : List ClassDef) (hb : bases.mapM (fun b => H.classes[b]?) = some bs) (m : Str) :
+    ∃ cd, (step H (.newClass bases mro pmap own dlg)).1.classes = H.classes ++ [cd] ∧
       cd.bases = bases ∧ cd.mro = mro ∧ cd.own = own ∧
       lookup cd.metas m = (match lookupLast own m with
         | some c => some c
@@ -622,10 +636,10 @@ example : (J.obj (.cons "é".toList (.arr (.cons [] (.num (-7)) (.cons [] (.str 
     = "{\"\\u00e9\": [-7, \"a\\\"\\n\\ud83d\\ude00\"]}".toList := by decide +kernel
 private def diamond (cFirstA : Bool) : List Op :=
   [ .newClass [] [0] (some [("common".toList, "/common".toList), ("front".toList, "/front".toList)])
-      [("ping".toList, some ["common".toList])],                                  -- 0 Base
-    .newClass [0] [1, 0] none [("ping".toList, some ["front".toList])],           -- 1 A(Base) overrides ping
-    .newClass [0] [2, 0] none [],                                                  -- 2 B(Base)
-    if cFirstA then .newClass [1, 2] [3, 1, 2, 0] none [] else .newClass [2, 1] [3, 2, 1, 0] none [] ]
+      [("ping".toList, some ["common".toList])] [],                               -- 0 Base
+    .newClass [0] [1, 0] none [("ping".toList, some ["front".toList])] [],        -- 1 A(Base) overrides ping
+    .newClass [0] [2, 0] none [] [],                                               -- 2 B(Base)
+    if cFirstA then .newClass [1, 2] [3, 1, 2, 0] none [] [] else .newClass [2, 1] [3, 2, 1, 0] none [] [] ]
 /-- `class C(A, B)`: the table agrees with the MRO (A.ping, component front). `class C(B, A)`: the MRO
 still selects A.ping, but the table holds the entry B inherited from Base (component common) — the
 code as it is (an observation, outside the property; the correspondence runs confirm that the real metaclass does
@@ -636,6 +650,16 @@ example : ((run Heap.empty (diamond true)).classes[3]?.map fun cd =>
 example : ((run Heap.empty (diamond false)).classes[3]?.map fun cd =>
     (bodyClass (run Heap.empty (diamond false)).classes "ping".toList cd.mro, lookup cd.metas "ping".toList))
     = some (some 1, some (some ["common".toList])) := by decide +kernel
+/-- a wrapper `outer` (component back) whose body calls `self.inner(…)` (component front, defined after it):
+the request is made by `inner` -/
+example : (match step (run Heap.empty
+      [ .newClass [] [0] (some [("front".toList, "/front".toList), ("back".toList, "/back".toList)])
+          [("outer".toList, some ["back".toList]), ("inner".toList, some ["front".toList])]
+          [("outer".toList, "inner".toList)],
+        .newCaller (.addr "http://h".toList true true) 0 ])
+      (.call 0 "outer".toList getArgs) with
+    | (_, .ok (.sent s)) => some (String.ofList s.url)
+    | _ => none) = some "http://h/front/p~0" := by decide +kernel
 /-- repeated keys of a pair sequence all reach the query, non-str values through `str()` -/
 example : (toUDict [("ids".toList, .int 1), ("x".toList, .str "y".toList), ("ids".toList, .int 2),
     ("f".toList, .bool false), ("n".toList, .pyNone)]).map (fun u => String.ofList (urlencode u))
